@@ -111,6 +111,19 @@ Theorem C11_other_objects_untouched : forall st o,
 Proof. exact other_objects_untouched. Qed.
 Print Assumptions C11_other_objects_untouched.
 
+(** updating never makes the object (or any other) unavailable: the update is a two-step transition
+    (lifecycle callback under tc.mutex, then publish); requests do not take the mutex.  While the
+    Init/Inherit callback of a Create / Update / Apply runs ([tc_during]) every name that resolved
+    before still resolves to the same entity - in particular the object being updated still serves
+    its previous generation -, and after the publish it still resolves. *)
+Theorem C11_update_never_unavailable : forall st o c ns name tag,
+  o = TCreate c ns name tag \/ o = TUpdate c ns name tag \/ o = TApply c ns name tag ->
+  forall c' ns' name' e, tc_lookup st c' ns' name' = Some e ->
+    tc_lookup (tc_during st o) c' ns' name' = Some e /\
+    tc_lookup (fst (tc_step st o)) c' ns' name' <> None.
+Proof. exact update_never_unavailable. Qed.
+Print Assumptions C11_update_never_unavailable.
+
 (** non-vacuity: see [mux_nonvacuous], [tc_nonvacuous], [w_spec_ok] and the refutation witnesses in
     proofs/ReloadProofs.v *)
 Example C11_nonvacuous :
